@@ -29,6 +29,7 @@ import (
 func init() {
 	register("concget", concGetStream)
 	register("concroute", concRouteStream)
+	register("conccopy", concCopyStream)
 	register("concrefresh", concRefreshStream)
 }
 
@@ -214,4 +215,67 @@ func concRefreshStream(g *hx.Gen, id int) hx.Case {
 		return []string{label}
 	})
 	return hx.Case{Stream: "concrefresh", ID: id, In: []string{hx.I(rounds)}, Impl: impl}
+}
+
+// conccopy (C20): 8 goroutines send GET and POST requests for ONE url through one router at the same time, each the way
+// the server does it (GetRoutingFlavors, then RouteRequest); a copy rule mirrors POST and PUT only. Every POST is
+// copied exactly once, no GET ever is, every request reaches the proxy destination (free-running: search support;
+// seeded change C20-m8: a one-slot match memo between the two calls, keyed without the method).
+// Output: requests, proxy contacts, copy contacts, copy contacts with a method the copy rule excludes, POSTs sent.
+type concCopyPerformer struct {
+	mu                   sync.Mutex
+	proxy, copies, wrong int
+}
+
+func (p *concCopyPerformer) CloseIdleConnections() {}
+func (p *concCopyPerformer) Do(req *http.Request) (*http.Response, error) {
+	p.mu.Lock()
+	if req.URL.Host == "c0.test" {
+		p.copies++
+		if req.Method != "POST" && req.Method != "PUT" {
+			p.wrong++
+		}
+	} else {
+		p.proxy++
+	}
+	p.mu.Unlock()
+	return &http.Response{StatusCode: 200, Status: "200 OK", Proto: "HTTP/1.1", ProtoMajor: 1, ProtoMinor: 1,
+		Header: http.Header{}, Body: http.NoBody, Request: req}, nil
+}
+
+func concCopyStream(g *hx.Gen, id int) hx.Case {
+	impl := hx.Guard(func() []string {
+		ct := "copy_traffic"
+		rules, err := proxy.ParseRules(hx.RulesJSON([]hx.RuleSpec{
+			{Path: "/q/*", Dest: "http://c0.test/cp/$1", Type: &ct, Methods: []string{"POST", "PUT"}},
+			{Path: "/q/*", Dest: "http://d0.test/$1"}}), sysx.Logger)
+		if err != nil {
+			return []string{"err:rules"}
+		}
+		perf := &concCopyPerformer{}
+		router := proxy.NewRouterWithPerformer(rules, sysx.Logger, &config.Config{RetryTimes: []int{}}, perf)
+		var wg sync.WaitGroup
+		posts := 0
+		for k := 0; k < 8; k++ {
+			wg.Add(1)
+			method := []string{"GET", "POST"}[k%2]
+			if method == "POST" {
+				posts += 200
+			}
+			go func(method string) {
+				defer wg.Done()
+				for i := 0; i < 200; i++ {
+					req, _ := http.NewRequest(method, "/q/x", nil)
+					req.URL, _ = url.ParseRequestURI("/q/x")
+					req.Host = "h1.test"
+					req.Body = http.NoBody
+					router.GetRoutingFlavors(req)
+					router.RouteRequest(context.Background(), req, nil, nil)
+				}
+			}(method)
+		}
+		wg.Wait()
+		return []string{"1600", hx.I(perf.proxy), hx.I(perf.copies), hx.I(perf.wrong), hx.I(posts)}
+	})
+	return hx.Case{Stream: "conccopy", ID: id, In: []string{hx.I(id % 4)}, Impl: impl}
 }
